@@ -30,11 +30,19 @@ def run(tier, seed):
         return ck.finish(RULE, TRUSTED, ASSUME)
     rng = ck.rng
     thorough = tier == 'thorough'
-    env = apel.PluginEnv(allow=True).install()
+    # parser modules of creator x that fail in every way: a PEL that uses them is well-formed and appears in all three modes alike
+    env = apel.PluginEnv(allow=True, ud={'x1111': ('echo',), 'x2222': ('raises', 'boom'), 'x3333': ('none',), 'x8888': ('import_raises', 'load failure'),
+                                         'x5a5a': ('raises', ''), 'x6b6b': ('release_raises', 'done')}).install()
     try:
         cases = []
         for _ in range(120 if thorough else 30):
-            d = clirun.keep_decodable(env, clirun.gen_wf_dir(rng, rng.choice([0, 1, 2, 5, 8, 12, 30 if thorough else 10])))
+            d0 = clirun.gen_wf_dir(rng, rng.choice([0, 1, 2, 5, 8, 12, 30 if thorough else 10]))
+            for n, p in d0:
+                if rng.random() < 0.25:
+                    p['ph']['creator'] = ord('x')
+                    for comp in rng.sample([0x1111, 0x2222, 0x3333, 0x8888, 0x5A5A, 0x6B6B], rng.randrange(1, 4)):
+                        p['sections'].append({'kind': 'ud', 'hdr': dict(apel.gen_hdr(rng), comp=comp, sub=7), 'payload': b'payload'})
+            d = clirun.keep_decodable(env, d0)
             files = [(n, apel.enc_pel(p)) for n, p in d]
             path = clirun.make_dir(files, subdirs={'archive': [('old_' + (files[0][0] if files else 'x'), files[0][1] if files else b'PH')]} if rng.random() < 0.5 else None)
             for _ in range(4):
@@ -110,7 +118,8 @@ def run(tier, seed):
                     ck.disagree('%s mode output differs from the model' % m, rp | {'mode': m, 'at': k, 'impl': so[max(0, k - 60):k + 60], 'model': mo[max(0, k - 60):k + 60], 'exit': (sx, mx)})
             seen_paths.add(path)
         # a sample as real subprocesses
-        for (path, d, files, cfg, rev, ext) in cases[:3 if not thorough else 12]:
+        # (a separate interpreter does not have this run's fixture modules: directories whose PELs need them stay in-process)
+        for (path, d, files, cfg, rev, ext) in [c for c in cases if all(p_['ph']['creator'] != ord('x') for _, p_ in c[1])][:3 if not thorough else 12]:
             base = ['-p', path] + clirun.cfg_argv(cfg) + (['-r'] if rev else []) + (['-e', ext] if ext is not None else [])
             for flag in ('-n', '-l', '-a'):
                 so, se, sx = clirun.run_sub(base + [flag])
